@@ -551,7 +551,11 @@ func (p *P) runTask(ts *taskState, src *tape.Source, live *liveSet) {
 		}
 		switch st.kind {
 		case 0:
-			_, hs := st.op.Exec(true)
+			res, hs := st.op.Exec(true)
+			if strings.Contains(res, ops.TreeMutated) {
+				ts.fails = append(ts.fails, core.Violation{Oracle: "read-only-operation-leaves-tree-unchanged", Sig: st.op.Kind.String(),
+					Msg: fmt.Sprintf("%s modified the tree it was given", st.op)})
+			}
 			for _, h := range hs {
 				hh := &held{what: h.What, value: h.Value, release: h.Release, canon0: canon.Of(h.Value)}
 				if h.What == "tree" {
